@@ -17,6 +17,7 @@ from .. import runner, tlc, tracecheck
 from ..common import Check, scratch
 
 LEVEL = "fault_enumeration"
+RULE = ('cases = Faults.tla (pipeline kind, fault set) scenarios: fault kind x position x file over 4 pipelines; non-trivial when at least one fault is injected and at least one other file is processed; distinct = distinct (pipeline, fault set)')
 
 PIPES = {
     "plain": {
